@@ -39,11 +39,124 @@ structure KindInfo where
   symFields : List String    -- string fields holding a symbol name: returned by the kind's `Symbol()` method
                              -- or passed to `VisitSymbol`
   opaqueFields : List String       -- fields of interface / func / map type that are not node interfaces
+  enumFields : List String := []   -- fields whose type is a named integer type of package ast (BinaryOp, SetFunction, boolBinaryOp)
+  ifaces : List String := []       -- interfaces of package ast whose method set is contained in the method set of *Kind
+  getType : String := ""           -- the constant `GetType()` returns ("" if it computes something)
+  valueRecv : Bool := false        -- Accept has a value receiver: the kind cannot be a nil pointer inside an interface
   steps : List Step
   deriving Repr
 
 abbrev Table := List KindInfo
 
 def Table.lookup (T : Table) (k : String) : Option KindInfo := T.find? (fun ki => ki.name == k)
+
+/- ------------------------------------------------------------------------------------------------
+   The validator itself, as data (regenerated from boltz/store_query.go IsPublicSymbol and
+   boltz/validate.go publicSymbolValidator.VisitSymbol / ValidateSymbolsArePublic by
+   /verif/extract/accept.go).  The model *interprets* these programs (C20/Model.lean); the
+   decidable predicate `GoodShape` (C20/Shape.lean) says which programs decide "public" the way
+   the property demands, and the property theorems are proved for every good shape.
+   ---------------------------------------------------------------------------------------------- -/
+
+/-- a string-valued expression in the body of IsPublicSymbol -/
+inductive NameE
+  | sym                      -- the parameter `symbol`
+  | firstSeg                 -- `strings.Split(symbol, ".")[0]`, or `symbol[:i]` with `i := strings.Index…(symbol, ".")`
+  | uptoLastDot              -- `symbol[:i]` with `i := strings.LastIndex…(symbol, ".")`
+  | other (src : String)
+  deriving DecidableEq, Repr
+
+/-- the two key sets of the store that IsPublicSymbol consults -/
+inductive StoreTbl
+  | pub                      -- `store.publicSymbols`
+  | maps                     -- `store.mapSymbols`
+  | other (src : String)
+  deriving DecidableEq, Repr
+
+/-- a condition in the body of IsPublicSymbol -/
+inductive CondE
+  | const (b : Bool)
+  | lookup (t : StoreTbl) (n : NameE)     -- `_, ok := store.<t>[<n>]` … `ok`
+  | segsMoreThan (n : Nat)                -- `len(strings.Split(symbol, ".")) > n`; n = 1 also for `strings.Index…(symbol, ".") >= 0`
+  | dotNotFirst                           -- `strings.Index…(symbol, ".") > 0`
+  | lastDotNotFirst                       -- `strings.LastIndex…(symbol, ".") > 0`
+  | not (c : CondE)
+  | and (a b : CondE)
+  | or (a b : CondE)
+  | other (src : String)
+  deriving DecidableEq, Repr
+
+/-- the body of IsPublicSymbol as a decision tree: `if c { A }; B` is `ite c (A; B) B` -/
+inductive DTree
+  | ret (c : CondE)                       -- `return <c>`
+  | ite (c : CondE) (t e : DTree)
+  | unknown (src : String)                -- a statement the extractor does not recognise, or falling off the end
+  deriving DecidableEq, Repr
+
+/-- atoms of the guard in publicSymbolValidator.VisitSymbol -/
+inductive VAtom
+  | errNil                                -- `visitor.err == nil`
+  | isPublic                              -- `visitor.store.IsPublicSymbol(symbol)`
+  | other (src : String)
+  deriving DecidableEq, Repr
+
+structure VLit where
+  atom : VAtom
+  pos : Bool                              -- false: negated
+  deriving DecidableEq, Repr
+
+/-- what the error names -/
+inductive VArg
+  | symbol                                -- `ast.NewUnknownSymbolError(symbol)`
+  | other (src : String)
+  deriving DecidableEq, Repr
+
+/-- one statement of VisitSymbol -/
+inductive VStmt
+  | setErrIf (conds : List VLit) (arg : VArg)   -- `if c1 && c2 … { visitor.err = ast.NewUnknownSymbolError(arg) }`
+  | returnIf (conds : List VLit)                -- `if c1 && … { return }`
+  | other (src : String)
+  deriving DecidableEq, Repr
+
+/-- one statement of ValidateSymbolsArePublic -/
+inductive WStmt
+  | newVisitor (fields : List String)     -- `visitor := &publicSymbolValidator{f: …}`: a fresh validator; the fields named in the literal
+  | acceptQuery                           -- `query.Accept(visitor)`
+  | acceptGetter (getter : String)        -- `query.<Getter>().Accept(visitor)`
+  | returnErr                             -- `return visitor.err`
+  | returnNilIf (src : String)            -- `if <src> { return nil }`
+  | other (src : String)
+  deriving DecidableEq, Repr
+
+structure ValidatorShape where
+  isPublic : DTree
+  visitSymbol : List VStmt
+  walk : List WStmt
+  /-- methods of queryNode that return one of its node-valued fields: (method, field) -/
+  getters : List (String × String)
+  deriving Repr
+
+/- ------------------------------------------------------------------------------------------------
+   Routes other than Accept by which a node gets into or out of a query (regenerated by
+   /verif/extract/accept_api.go).
+   ---------------------------------------------------------------------------------------------- -/
+
+/-- how a kind's `Symbol()` method computes its result -/
+inductive SymVia
+  | field (f : String)       -- `return recv.f`
+  | child (c : String)       -- `return recv.c.Symbol()`
+  | other (src : String)
+  deriving DecidableEq, Repr
+
+/-- one method of queryNode that belongs to the exported interface ast.Query -/
+inductive ApiMethod
+  | get (method : String) (path : List String)      -- returns `recv.F` ([F]) or the elements of `recv.F.G` ([F, G])
+  | set (method field : String)                     -- `recv.F = param`
+  | adopt (method field : String)                   -- `recv.F = other.F` for `other := param.(*queryNode)`
+  | build (method field kind : String)              -- `recv.F = &kind{…}` from scalars
+  | scalar (method field : String)                  -- returns a non-node value read through `recv.F`
+  | eval (method field : String)                    -- delegates evaluation to `recv.F`
+  | unknown (method src : String)
+  deriving DecidableEq, Repr
 
 end StorageModel.C20
